@@ -569,6 +569,8 @@ HardDelivered == [][act'.name = "Scan" => \A j \in Jobs : j \in HardHit => job'[
 SoftDelivered == [][act'.name = "Scan" => \A j \in Jobs :
                        (SoftDue(j) /\ j \notin HardHit /\ job[j].owner \in PoolPids(pool))
                            => job'[j].tsoft = job[j].tsoft + 1]_vars
+(* a scan sets out to visit exactly the jobs that are in the table when it starts *)
+SnapFresh == [][act'.name = "ScanBegin" => snap' = SeqOfJobs(Cached, 1)]_vars
 SoftOnce == \A j \in Jobs : job[j].tsoft <= 1
 SoftOnlyIfDue == [][\A j \in Jobs : job'[j].tsoft > job[j].tsoft =>
                        /\ job[j].soft # 0 /\ job[j].tacc # None /\ now >= Val(job[j].tacc) + job[j].soft
